@@ -206,16 +206,14 @@ class Scheduler:
         t = self._traced.get(code)
         if t is None:
             fn = code.co_filename
-            if fn.startswith(self.pgen):
-                t = 2 if code.co_name == 'generate_grammar' else 0
-            else:
-                t = 1 if fn.startswith(self.base) else 0
+            # Frames of parso/pgen2 are not traced at all: the number of lines they execute depends on
+            # object addresses (a set of NFA states is iterated), their effect does not.  Code they
+            # call outside pgen2 - the tokenizer run over the grammar text, which is where the first
+            # token collection of a process is created - is traced and pre-emptible like any other.
+            t = 1 if (fn.startswith(self.base) and not fn.startswith(self.pgen)) else 0
             self._traced[code] = t
         if t == 1:
             return self.local_trace
-        if t == 2:
-            self.atomic[self.cur] += 1
-            return self.atomic_trace
         return None
 
     def atomic_trace(self, frame, event, arg):
@@ -779,12 +777,12 @@ def run_check(tier, base_seed, wall, workers, do_selftest):
                            'cold start (first use races) vs warm start',
             'real_code': ['all of parso (tokenizer, parser, error finder, PEP 8 normalizer, grammar loading)'],
             'stubs': ['thread scheduling (real threads, one runnable at a time, switch points from the plan)'],
-            'atomic': ['frames of parso/pgen2 during generate_grammar (table order is address dependent)',
+            'atomic': ['frames of parso/pgen2 themselves (their line count is address dependent); code they call, e.g. the tokenizer run over the grammar text, is pre-emptible',
                        'C calls / single bytecodes (GIL)'],
             'harness_errors': agg['harness'][:5], 'lost_tasks': agg['lost'][:5],
         },
         'assumptions': ['pre-emption granularity is a source line of parso; C-level races without the GIL are out of scope',
-                        'parser generation (pgen2) is treated as atomic',
+                        'frames of the parser generator (pgen2) are not pre-emption points',
                         'reference = the same calls executed sequentially in a pristine forked interpreter'],
         'wall_s': round(wall_used, 1), 'violations': new,
     }
